@@ -154,6 +154,42 @@ _UTYPES = [(V.U1, 0, 2**8 - 1), (V.U2, 0, 2**16 - 1), (V.U4, 0, 2**32 - 1), (V.U
            (V.I1, -2**7, 2**7 - 1), (V.I2, -2**15, 2**15 - 1), (V.I4, -2**31, 2**31 - 1), (V.I8, -2**63, 2**63 - 1)]
 
 
+# ---------------------------------------------------------------------------------------------- own E5 encoder (foreign peer)
+_CODE = {"L": 0, "B": 0o10, "BOOL": 0o11, "A": 0o20, "I8": 0o30, "I1": 0o31, "I2": 0o32, "I4": 0o34, "F8": 0o40, "F4": 0o44,
+         "U8": 0o50, "U1": 0o51, "U2": 0o52, "U4": 0o54}
+_INTW = {"U1": (1, False), "U2": (2, False), "U4": (4, False), "U8": (8, False), "I1": (1, True), "I2": (2, True), "I4": (4, True), "I8": (8, True)}
+
+
+def enc_item(tag: str, payload, form: int = 0) -> bytes:
+    """SECS-II item written from E5 (nothing of secsgem): `L` takes encoded children, `B`/`BOOL` raw byte values (a BOOLEAN
+    TRUE may be ANY non-zero byte), `A` a str, integer tags a list of ints.  `form` picks 1..3 length bytes (never fewer than
+    needed): valid but not necessarily the shortest encoding, as a foreign peer may send it."""
+    if tag == "L":
+        body, length = b"".join(payload), len(payload)
+    elif tag in ("B", "BOOL"):
+        body = bytes(payload)
+        length = len(body)
+    elif tag == "A":
+        body = payload.encode("latin-1")
+        length = len(body)
+    else:
+        w, signed = _INTW[tag]
+        body = b"".join(int(v).to_bytes(w, "big", signed=signed) for v in payload)
+        length = len(body)
+    need = 1 if length < 1 << 8 else 2 if length < 1 << 16 else 3
+    nlen = need + form % (4 - need)
+    return bytes([(_CODE[tag] << 2) | nlen]) + length.to_bytes(nlen, "big") + body
+
+
+def enc_id(i, form: int) -> bytes:
+    """an id item in one of the integer widths that hold it (U1…U8, I1…I8) or as A text"""
+    if i[0] == "t":
+        return enc_item("A", i[1], form)
+    fits = [t for t, (w, sg) in _INTW.items()
+            if all((-(1 << (8 * w - 1)) <= v < (1 << (8 * w - 1))) if sg else (0 <= v < (1 << (8 * w))) for v in i[1])]
+    return enc_item(fits[form % len(fits)], list(i[1]), form // 7)
+
+
 def mk_id_item(i, form: int):
     """the SECS variable (or plain Python value) sent for id `i`; `form` picks among the admissible integer widths"""
     if i[0] == "t":
@@ -260,9 +296,13 @@ class Equipment:
 
     def message(self, stream: int, function: int, value):
         """a real HsmsMessage carrying the encoded function (what the callbacks receive)"""
-        fn = self.h.stream_function(stream, function)(value) if value is not None else self.h.stream_function(stream, function)()
         self.system += 1
-        return secsgem.hsms.HsmsMessage(secsgem.hsms.HsmsStreamFunctionHeader(self.system, stream, function, True, 0), fn.encode())
+        if isinstance(value, (bytes, bytearray)):     # a body encoded by the harness's own encoder: as a foreign peer's frame arrives
+            data = bytes(value)
+        else:
+            fn = self.h.stream_function(stream, function)(value) if value is not None else self.h.stream_function(stream, function)()
+            data = fn.encode()
+        return secsgem.hsms.HsmsMessage(secsgem.hsms.HsmsStreamFunctionHeader(self.system, stream, function, True, 0), data)
 
     def request(self, stream: int, function: int, value, direct: bool):
         """-> (stream, function, decoded body) of the answer.  `direct`: call the registered callback with the real message and
